@@ -176,6 +176,7 @@ class _Collector:
             "viol": self.viol,
             "fired": set(loader.FIRED),
             "prod_total": loader._COV["total"],
+            "prod_all": list(loader._COV.get("all", [])),
         }
 
 
@@ -357,6 +358,7 @@ def _sharded_search(pid, prop, tier, seed, notes):
             "samples": [s for r in results for s in r["samples"]],
             "fired": set().union(*[r["fired"] for r in results]),
             "prod_total": max(r["prod_total"] for r in results),
+            "prod_all": max((r.get("prod_all", []) for r in results), key=len),
         }
         buckets = {}
         for r in results:
@@ -453,6 +455,7 @@ def run_check(pid, tier, seed):
         "excluded_by_known_finding": dict(merged["excluded"]),
         "productions_fired": len(merged["fired"]),
         "productions_total": merged["prod_total"],
+        "productions_not_fired": sorted(set(merged.get("prod_all", [])) - set(merged["fired"])),
         "known_findings_reproduced": known_reproduced,
         "fixed_and_replay_cases": fixed_run,
         "shards": nshards,
